@@ -6,6 +6,7 @@ From RV Require Core.Defer.
 From RV Require Import Base.Str Base.PathLex Path.Clean Path.CleanSpec Path.Relative Path.Helpers Path.HelpersFacts Core.Iter File.MemFile Path.Expand Path.Abs Xdg.Dirs Chmod.Sym.
 From stdpp Require gmap.
 From RV Require Import Memfs.State Memfs.Ops Memfs.Step Memfs.Wf Memfs.WfB Memfs.Handles Macros.Asserts.
+From RV Require Memfs.Walk Memfs.WalkOps Memfs.WalkSpec.
 
 Definition api_components := components.
 Definition api_push := push.
@@ -128,6 +129,20 @@ Definition api_revoking_mode := revoking_mode.
 (* ---- Memfs mirror (C01, C03, C06, C09, C10, C12, C20) ---- *)
 Definition api_mfs_init := mfs_init.
 Definition api_mfs_step (e : list (list N * list N)) (m : mfs) (o : op) := step (env_lookup e) m o.
+(* the traversal machine next to the recursion it is proved to follow (Memfs/WalkSpec.v), on the state and arguments of an
+   entries call: the driver compares the two on every explored call, links followed or not *)
+Definition api_walk_vs_spec (e : list (list N * list N)) (m : mfs) (s : list N) (wo : Walk.wopts)
+  : option (outcome (list Walk.event) * option (list Walk.event)) :=
+  match resolve (env_lookup e) m s with
+  | inl p => match stdpp.base.lookup p (m_ents m) with
+             | Some r => match Walk.walk (m_ents m) wo WalkOps.no_pre p with
+                         | inl out => Some (out, WalkSpec.sw_walk 64 (m_ents m) wo WalkOps.no_pre r)
+                         | inr _ => None
+                         end
+             | None => None
+             end
+  | inr _ => None
+  end.
 Definition api_mfs_entries (m : mfs) := fin_maps.map_to_list (m_ents m).
 Definition api_mfs_data (m : mfs) := fin_maps.map_to_list (m_data m).
 Definition api_files_list (e : entry) : option (list (list N)) :=
